@@ -182,6 +182,11 @@ class Env:
             if isinstance(s, ast.AugAssign) and isinstance(s.target, ast.Name):
                 self.aug[s.target.id] = self.aug.get(s.target.id, 0) + 1
         self.defs = {}
+        self.def_line = {}
+        self.last_bind = {}
+        for s in stmts(body):
+            for n in targets_of(s):
+                self.last_bind[n] = max(self.last_bind.get(n, 0), getattr(s, 'lineno', 0))
         self._collect(body, in_loop=False)
         for name, n in self.aug.items():
             value = self.defs.get(name)
@@ -198,12 +203,14 @@ class Env:
                 name = s.targets[0].id
                 if self.counts.get(name) == 1 + self.aug.get(name, 0) and name not in self.params:
                     self.defs[name] = s.value
+                    self.def_line[name] = s.lineno
             if (isinstance(s, ast.Assign) and len(s.targets) == 1 and not in_loop
                     and isinstance(s.targets[0], ast.Tuple) and isinstance(s.value, ast.Tuple)
                     and len(s.targets[0].elts) == len(s.value.elts)):
                 for t, v in zip(s.targets[0].elts, s.value.elts):
                     if isinstance(t, ast.Name) and self.counts.get(t.id) == 1 and t.id not in self.params:
                         self.defs[t.id] = v
+                        self.def_line[t.id] = s.lineno
             for field, sub in iter_child_stmts(s):
                 self._collect(sub, in_loop or isinstance(s, (ast.For, ast.While, ast.AsyncFor)))
 
@@ -229,7 +236,9 @@ class Env:
                     # do not expand through values that depend on rebound names
                     for used in names_loaded(value):
                         if env.counts.get(used, 0) > 1 or (used in env.params and env.counts.get(used, 0) > 0):
-                            return n
+                            # a rebound name is harmless when every rebinding lies before this definition (straight-line order)
+                            if not (env.last_bind.get(used, 0) < env.def_line.get(n.id, 0) and used not in env.aug):
+                                return n
                     return env.expand(value, depth + 1, skip, alias_only)
                 return n
 
